@@ -69,6 +69,38 @@ class Ctx:
             return realize(v)
         return v
 
+    def split(self, value, candidates):
+        """Case-split on a small-range symbolic value (a deliberate fork that hands the solver a concrete
+        residue, e.g. the weekday of 1 January); returns the value."""
+        if self.symbolic:
+            for k in candidates:
+                if value == k:
+                    return k
+        return value
+
+    def lemma(self, fact):
+        """Hand the solver a fact that is VALID (proved separately, see sym.prove_calendar_lemmas): adding a
+        theorem to the path condition prunes nothing.  Natively it is simply asserted."""
+        if self.symbolic:
+            from crosshair.statespace import context_statespace
+            from crosshair.tracers import NoTracing
+            with NoTracing():
+                context_statespace().add(fact.var if hasattr(fact, "var") else fact)
+        else:
+            assert fact, "lemma violated natively"
+
+    def split_within(self, value, candidates):
+        """Like split(), but paths where the value is none of the candidates are pruned (a stated bound)."""
+        if self.symbolic:
+            for k in candidates:
+                if value == k:
+                    return k
+            from crosshair.util import IgnoreAttempt
+            raise IgnoreAttempt("assume")
+        if value not in candidates:
+            raise AssumeFailed()
+        return value
+
     def fail(self, msg, key=None, **info):
         self.reached += 1
         raise Violation(msg, key=key, **info)
@@ -139,6 +171,13 @@ def _install_accounting():
             return orig(solver, *exprs)
         except ss.UnknownSatisfiability:
             _STATS.unknown += 1
+            dump = os.environ.get("VERIF_DUMP_UNKNOWN")
+            if dump:
+                with open(os.path.join(dump, "unknown_%d_%d.smt2" % (os.getpid(), _STATS.unknown)), "w") as f:
+                    f.write(solver.sexpr())
+                    for e in exprs:
+                        f.write("\n(assert %s)" % e.sexpr())
+                    f.write("\n(check-sat)\n")
             raise
         finally:
             _STATS.queries += 1
@@ -207,8 +246,21 @@ def source_hashes(files=None):
 
 # ---------------------------------------------------------------------------
 
-class CellResult(dict):
-    pass
+def _make_args(types, space, sig, gen_args):
+    """Symbolic arguments.  int/bool are created directly as plain solver variables: CrossHair's own int
+    factory adds a 'premature realisation' ParallelNode whose probability grows with every UNKNOWN leaf,
+    which turns an exhaustive search into value enumeration."""
+    from crosshair.libimpl import builtinslib as bl
+    from crosshair.core import proxy_for_type
+    out = {}
+    for n, t in types.items():
+        if t is int:
+            out[n] = bl.SymbolicInt(n + space.uniq())
+        elif t is bool:
+            out[n] = bl.SymbolicBool(n + space.uniq())
+        else:
+            out[n] = proxy_for_type(t, n + space.uniq(), allow_subtypes=False)
+    return out
 
 
 def explore(fn, types, *, budget_s=60.0, per_path_s=10.0, stubs=None,
@@ -260,8 +312,7 @@ def explore(fn, types, *, budget_s=60.0, per_path_s=10.0, stubs=None,
         with condition_parser([AnalysisKind.PEP316]), Patched(), COMPOSITE_TRACER, \
                 NoTracing(), StateSpaceContext(space):
             try:
-                pre_args = gen_args(sig)
-                kwargs = dict(pre_args.arguments)
+                kwargs = _make_args(types, space, sig, gen_args)
                 try:
                     with stub_cm():
                         with ResumedTracing():
@@ -277,14 +328,21 @@ def explore(fn, types, *, budget_s=60.0, per_path_s=10.0, stubs=None,
                                 v.key = deep_realize(v.key)
                                 leaf = ("viol", deep_realize(kwargs), v)
                     status = VerificationStatus.CONFIRMED
-                except IgnoreAttempt:
+                except IgnoreAttempt as e:
                     status = None
                     res["ignored"] += 1
+                    if str(e) != "assume" and len(res["unknown_where"]) < 5:
+                        fr = [f for f in traceback.extract_tb(e.__traceback__) if "/engine/" not in f.filename]
+                        res["unknown_where"].append("IgnoreAttempt: " + str(e)[:100] + " @ " +
+                                                    " < ".join("%s:%d" % (os.path.basename(f.filename), f.lineno) for f in fr[-4:]))
                 except UnexploredPath as e:
                     status = VerificationStatus.UNKNOWN
                     res["unknown"] += 1
                     if len(res["unknown_where"]) < 5:
-                        res["unknown_where"].append(type(e).__name__ + ": " + str(e)[:200])
+                        fr = [f for f in traceback.extract_tb(e.__traceback__)
+                              if "/crosshair/" not in f.filename and "/engine/" not in f.filename]
+                        res["unknown_where"].append(type(e).__name__ + ": " + str(e)[:100] + " @ " +
+                                                    " < ".join("%s:%d" % (os.path.basename(f.filename), f.lineno) for f in fr[-4:]))
                 except NotDeterministic as e:
                     status = VerificationStatus.UNKNOWN
                     res["unknown"] += 1
